@@ -154,7 +154,9 @@ func (h *cluHandler) ProcessEventBatch(ctx context.Context, req *handlerpb.Proce
 		dig map[int]uint64
 	}
 	states := map[string]*kstate{}
-	for _, ks := range req.KeyStates {
+	keyStates := append([]*handlerpb.KeyState(nil), req.KeyStates...)
+	sort.SliceStable(keyStates, func(i, j int) bool { return string(keyStates[i].Key) < string(keyStates[j].Key) })
+	for _, ks := range keyStates {
 		st := &kstate{cnt: map[int]int{}, dig: map[int]uint64{}}
 		for _, ns := range ks.StateEntryNamespaces {
 			for _, e := range ns.Entries {
